@@ -67,6 +67,15 @@ fn main() {
         _ => usage(),
     };
     let run = ev::Run::new(id, &tier, level);
-    f(&run);
-    std::process::exit(run.finish());
+    let r = std::panic::catch_unwind(std::panic::AssertUnwindSafe(|| {
+        f(&run);
+        run.finish()
+    }));
+    match r {
+        Ok(code) => std::process::exit(code),
+        Err(_) => {
+            eprintln!("MACHINERY-ERROR property={}: the harness panicked; this is not a verdict", id);
+            std::process::exit(2);
+        }
+    }
 }
